@@ -6,6 +6,21 @@ KANI_SRC = os.path.join(VERIF, "kani")
 MEM_KB = int(os.environ.get("VERIF_KANI_MEM_KB", str(24 * 1024 * 1024)))
 
 
+def ensure_generated():
+    """kani/src/gen_c16.rs (one harness over the script names found in the working tree's pest/src/unicode/mod.rs) is part of
+    the harness crate: regenerate it for every run so that no check depends on C16 having run before it; when the names
+    cannot be read the module is left empty (C16 itself then reports why)"""
+    gpath = os.path.join(KANI_SRC, "src", "gen_c16.rs")
+    try:
+        from props import c16
+        text = c16.gen(*c16.read_names(), 40)
+    except Exception as e:
+        text = f"// not generated: {type(e).__name__}\n"
+    if not os.path.exists(gpath) or open(gpath).read() != text:
+        tmp = gpath + f".{os.getpid()}.tmp"
+        open(tmp, "w").write(text); os.replace(tmp, gpath)
+
+
 def crate_dir(variant):
     """variant: 'default' (pest default features: std+memchr) or 'nomemchr' (std only)."""
     d = os.path.join(WORK, "kani-crate-" + variant)
@@ -31,6 +46,7 @@ nomemchr = []
 [lints.rust]
 unexpected_cfgs = {{ level = "allow" }}
 """
+    ensure_generated()
     p = os.path.join(d, "Cargo.toml")
     if not os.path.exists(p) or open(p).read() != toml:
         open(p, "w").write(toml)
